@@ -85,6 +85,10 @@ func Judge(sc *Scenario, mr *ModelRun, out *Outcome) []Finding {
 				add("C10", "inner-context-cancelled", "node %d: %s — in the flattened machine all nodes share one context that lives until the run ends", e.Node, e.Note)
 				continue
 			}
+			if strings.HasPrefix(e.Note, "store:") {
+				add("C10", "store-contents-changed-between-callbacks", "node %d: %s — in the flattened machine nothing but the nodes' callbacks touches the store while the run is going on", e.Node, e.Note)
+				continue
+			}
 			add("C01", "anomaly:"+kn(e.Node), "node %d: %s", e.Node, e.Note)
 		}
 	}
